@@ -585,6 +585,7 @@ var HeadUnknownErr = errors.New("array has invalid state, head has no index")
 
 type prunedNode struct {
 	canonical bool
+	index     NodeIndex
 	node      *ProtoNode
 }
 
@@ -592,15 +593,12 @@ type prunedNode struct {
 // The slot may point to a gap slot,
 // in which case the node with the anchor block of the anchor block-root is pruned,
 // and the next nodes, up to (and excl.) the anchorSlot.
+// Every node that does not build on the anchor is pruned, also if it was added after the anchor.
 func (pr *ProtoArray) OnPrune(ctx context.Context, anchorRoot Root, anchorSlot Slot) error {
 	anchorRef := NodeRef{Root: anchorRoot, Slot: anchorSlot}
 	anchorIndex, ok := pr.indices[anchorRef]
 	if !ok {
 		// if the anchor is unknown, then there is nothing to prune anyway.
-		return nil
-	}
-	if anchorIndex == pr.indexOffset {
-		// nothing to do
 		return nil
 	}
 	// The pruned nodes that are canonical are those the anchor builds on: its transition ancestors.
@@ -610,14 +608,26 @@ func (pr *ProtoArray) OnPrune(ctx context.Context, anchorRoot Root, anchorSlot S
 		canonicalNodes[i] = struct{}{}
 		i = pr.nodes[i-pr.indexOffset].TransitionParent
 	}
-	var err error
-	// Remove the `self.indices` and `self.blockSlots` key/values for all the to-be-deleted nodes.
+	// A node is kept if it is the anchor, or if its transition parent is kept.
+	// The parent of a node is always earlier in the array, a single pass decides it for all nodes.
+	keep := make([]bool, len(pr.nodes))
+	keep[anchorIndex-pr.indexOffset] = true
 	var pruned []prunedNode
-	for i := pr.indexOffset; i < anchorIndex; i++ {
+	for i := pr.indexOffset; i < pr.indexOffset+NodeIndex(len(pr.nodes)); i++ {
 		node := &pr.nodes[i-pr.indexOffset]
-		_, canonical := canonicalNodes[i]
-		pruned = append(pruned, prunedNode{canonical, node})
+		if parent := node.TransitionParent; parent != NONE && parent >= anchorIndex && keep[parent-pr.indexOffset] {
+			keep[i-pr.indexOffset] = true
+		}
+		if !keep[i-pr.indexOffset] {
+			_, canonical := canonicalNodes[i]
+			pruned = append(pruned, prunedNode{canonical, i, node})
+		}
 	}
+	if len(pruned) == 0 {
+		// nothing to do
+		return nil
+	}
+	var err error
 	// Send pruned nodes to the node sink (if there is any sink). Continue until it fails.
 	// Only prune what we successfully sent to the sink.
 	prunedUpTo := 0
@@ -629,33 +639,53 @@ func (pr *ProtoArray) OnPrune(ctx context.Context, anchorRoot Root, anchorSlot S
 		}
 		prunedUpTo++
 	}
+	// Remove the `self.indices` and `self.blockSlots` key/values for all the deleted nodes.
+	removed := make([]bool, len(pr.nodes))
 	for _, p := range pruned[:prunedUpTo] {
+		removed[p.index-pr.indexOffset] = true
 		delete(pr.indices, p.node.Ref)
-		// Remove the block-slots ref
-		delete(pr.blockSlots, p.node.Ref.Root)
+		// Remove the block-slots ref, if it is this node that it refers to.
+		if slot, ok := pr.blockSlots[p.node.Ref.Root]; ok && slot == p.node.Ref.Slot {
+			delete(pr.blockSlots, p.node.Ref.Root)
+		}
 	}
-	// adjust the slot we know for the anchor root, everything before it was pruned.
-	// (After the removals: earlier nodes of the anchor root itself may be among the pruned nodes.)
-	pr.blockSlots[anchorRoot] = anchorSlot
-	// TODO: is this slicing bad for GC?
-	pr.nodes = pr.nodes[prunedUpTo:]
 	// Node indices are positions in the nodes array: the vote store computes one delta per position,
-	// and the nodes refer to each other by position. So shift everything that remains down,
+	// and the nodes refer to each other by position. So move everything that remains to close the gaps,
 	// references to pruned nodes become NONE.
-	shift := func(i NodeIndex) NodeIndex {
-		if i == NONE || i < NodeIndex(prunedUpTo) {
+	newIndices := make([]NodeIndex, len(pr.nodes))
+	remaining := 0
+	for i := range pr.nodes {
+		if removed[i] {
+			newIndices[i] = NONE
+			continue
+		}
+		newIndices[i] = NodeIndex(remaining)
+		pr.nodes[remaining] = pr.nodes[i]
+		remaining++
+	}
+	pr.nodes = pr.nodes[:remaining]
+	offset := pr.indexOffset
+	move := func(i NodeIndex) NodeIndex {
+		if i == NONE || i < offset {
 			return NONE
 		}
-		return i - NodeIndex(prunedUpTo)
+		return newIndices[i-offset]
 	}
+	pr.indexOffset = 0
 	for i := range pr.nodes {
 		node := &pr.nodes[i]
-		node.TransitionParent = shift(node.TransitionParent)
-		node.ForkchoiceParent = shift(node.ForkchoiceParent)
-		node.BestChild = shift(node.BestChild)
-		node.BestDescendant = shift(node.BestDescendant)
+		node.TransitionParent = move(node.TransitionParent)
+		node.ForkchoiceParent = move(node.ForkchoiceParent)
+		node.BestChild = move(node.BestChild)
+		node.BestDescendant = move(node.BestDescendant)
 		pr.indices[node.Ref] = NodeIndex(i)
+		// adjust the slot we know for a root of which the first node(s) were pruned (e.g. the anchor root).
+		if _, ok := pr.blockSlots[node.Ref.Root]; !ok {
+			pr.blockSlots[node.Ref.Root] = node.Ref.Slot
+		}
 	}
+	// best-child/best-descendant links into pruned branches are gone, have them re-evaluated.
+	pr.updatedConnections = false
 	return err
 }
 
